@@ -56,7 +56,9 @@ PROPS['C04'] = {
     'technique': 'deviation-bounded (CHESS-style) exhaustive schedule enumeration on the real lane managers, differential oracle "same job alone"',
     'level_text': 'For every suite with an out-of-order lane manager (both directions) and 18 chained cipher+hash suites, on all 7 variants, every schedule "submit n jobs then flush all" for every n = 1..34 with at most k deviations (another length for job i, a flush or get_completed before job i) is executed from the pristine manager image; k = 1 in quick, k = 2 in thorough (n <= 18 and n >= 31). Every job must come back once, in order, with exactly the outputs it gives when processed alone. This reaches every lane occupancy at flush time, lanes freed and refilled mid-flight, min-length scheduling with unequal lanes and two managers active for a chained job.',
     'level_note': 'Differential oracle: the solo run is trusted only as far as C01-C03 establish it. Suites of different algorithms in one history are covered by C05/C15/C16 histories, not here. Data bytes from VERIF_SEED.',
-    'drivers': [{'name': 'c04', 'src': ['props/c04.c'] + ALG, 'cfgs': ['std'], 'args': ''}],
+    'drivers': [{'name': 'c04', 'src': ['props/c04.c'] + ALG, 'cfgs': ['std'], 'args': ''},
+                # synchronous bursts issued while asynchronous jobs are parked in the same out-of-order manager
+                {'name': 'c04s', 'src': ['props/c04s.c'] + ALG, 'cfgs': ['std'], 'args': ''}],
     'deadline': {'quick': 900, 'thorough': 3000},
     'assumptions': ['executions start from the pristine post-init image restored by memcpy (validated in DESIGN.md section 2)'],
 }
